@@ -1144,10 +1144,15 @@ class PyCdlib:
                     # Directory Record and the Continuation Entry were parsed.
                     self._set_rock_ridge(new_record.rock_ridge.rr_version)
                     cdfp.seek(orig_pos)
-                    block = self.pvd.track_rr_ce_entry(ce_record.bl_cont_area,
-                                                       ce_record.offset_cont_area,
-                                                       ce_record.len_cont_area)
-                    new_record.rock_ridge.update_ce_block(block)
+                    if not (dir_record.is_root and new_record.is_dot()):
+                        # The continuation entry of the root 'dot' record (the
+                        # ER record) always gets an extent of its own when
+                        # extents are assigned, so it is not part of the
+                        # shared continuation blocks.
+                        block = self.pvd.track_rr_ce_entry(ce_record.bl_cont_area,
+                                                           ce_record.offset_cont_area,
+                                                           ce_record.len_cont_area)
+                        new_record.rock_ridge.update_ce_block(block)
 
                 if rr_cl:
                     child_links.append(new_record)
